@@ -187,4 +187,238 @@ theorem delta_eq_twoLoop {ip : V → V → K} (hip : IsIP ip) (b : Nat → V) (m
       rw [this]
     rw [e1, e2]
 
+/-! ### circular-buffer indexing: slots vs. logical indices -/
+
+/-- distinct logical indices of the window live in distinct slots (`m ≤ mmax`) -/
+theorem slot_inj (mmax k m : Nat) (hm : m ≤ mmax) (a b : Nat) (ha : a < m) (hb : b < m)
+    (h : slot mmax k m a = slot mmax k m b) : a = b := by
+  unfold slot at h
+  rcases Nat.lt_or_ge a b with hab | hab
+  · exfalso
+    have h1 : ((k - m + b) - (k - m + a)) % mmax = 0 := Nat.sub_mod_eq_zero_of_mod_eq h.symm
+    have h2 : (k - m + b) - (k - m + a) = b - a := by omega
+    rw [h2] at h1
+    have h3 : b - a < mmax := by omega
+    rw [Nat.mod_eq_of_lt h3] at h1
+    omega
+  · rcases Nat.lt_or_ge b a with hba | hba
+    · exfalso
+      have h1 : ((k - m + a) - (k - m + b)) % mmax = 0 := Nat.sub_mod_eq_zero_of_mod_eq h
+      have h2 : (k - m + a) - (k - m + b) = a - b := by omega
+      rw [h2] at h1
+      have h3 : a - b < mmax := by omega
+      rw [Nat.mod_eq_of_lt h3] at h1
+      omega
+    · omega
+
+/-- first loop over slots = first loop over logical indices (the `alpha` list is indexed by slot in `L_BFGS`) -/
+theorem firstLoop_map (ip : V → V → K) (s y : Nat → V) (σ : Nat → Nat) (m : Nat)
+    (hσ : ∀ a b, a < m → b < m → σ a = σ b → a = b) :
+    ∀ (L : List Nat), (∀ j ∈ L, j < m) → ∀ (p : V) (alS alL : Nat → K) (P : Nat → Prop),
+      (∀ j, j < m → P j → alS (σ j) = alL j) →
+      (firstLoop ip s y (L.map σ) p alS).1 = (firstLoop ip (fun j => s (σ j)) (fun j => y (σ j)) L p alL).1 ∧
+      ∀ j, j < m → (P j ∨ j ∈ L) →
+        (firstLoop ip s y (L.map σ) p alS).2 (σ j) =
+          (firstLoop ip (fun j => s (σ j)) (fun j => y (σ j)) L p alL).2 j := by
+  intro L
+  induction L with
+  | nil =>
+    intro _ p alS alL P hP
+    simp only [List.map_nil, firstLoop, true_and]
+    intro j hj hpj
+    rcases hpj with h | h
+    · exact hP j hj h
+    · cases h
+  | cons i r ih =>
+    intro hL p alS alL P hP
+    have him : i < m := hL i List.mem_cons_self
+    simp only [List.map_cons, firstLoop]
+    have := ih (fun j hj => hL j (List.mem_cons_of_mem _ hj))
+      (p - (ip (s (σ i)) p / ip (s (σ i)) (y (σ i))) • y (σ i))
+      (upd alS (σ i) (ip (s (σ i)) p / ip (s (σ i)) (y (σ i))))
+      (upd alL i (ip (s (σ i)) p / ip (s (σ i)) (y (σ i))))
+      (fun j => P j ∨ j = i)
+      (by
+        intro j hj hpj
+        by_cases hji : j = i
+        · subst hji; rw [upd_same, upd_same]
+        · have hne : σ j ≠ σ i := fun h => hji (hσ j i hj him h)
+          rw [upd_other _ _ hne, upd_other _ _ hji]
+          rcases hpj with h | h
+          · exact hP j hj h
+          · exact absurd h hji)
+    refine ⟨this.1, ?_⟩
+    intro j hj hpj
+    apply this.2 j hj
+    rcases hpj with h | h
+    · exact Or.inl (Or.inl h)
+    · rcases List.mem_cons.mp h with h | h
+      · exact Or.inl (Or.inr h)
+      · exact Or.inr h
+
+theorem secondLoop_map (ip : V → V → K) (s y : Nat → V) (σ : Nat → Nat) (alS alL : Nat → K) :
+    ∀ (L : List Nat), (∀ j ∈ L, alS (σ j) = alL j) → ∀ (p : V),
+      secondLoop ip s y alS (L.map σ) p = secondLoop ip (fun j => s (σ j)) (fun j => y (σ j)) alL L p := by
+  intro L
+  induction L with
+  | nil => intro _ p; simp [secondLoop]
+  | cons i r ih =>
+    intro hL p
+    simp only [List.map_cons, secondLoop]
+    rw [hL i List.mem_cons_self]
+    exact ih (fun j hj => hL j (List.mem_cons_of_mem _ hj)) _
+
+theorem mem_downList {j m : Nat} : j ∈ downList m ↔ j < m := by
+  induction m with
+  | zero => simp [downList]
+  | succ m ih => simp only [downList, List.mem_cons, ih]; omega
+
+/-- the slots `L_BFGS` visits going down are the window's logical indices `m-1, …, 0` -/
+theorem slotsDown_eq (k m mmax : Nat) (hmk : m ≤ k) :
+    slotsDown k m mmax = (downList m).map (slot mmax k m) := by
+  unfold slotsDown
+  have : ∀ n, n ≤ m → (List.range n).map (fun j => (k - 1 - j) % mmax) =
+      ((List.range n).map (fun j => m - 1 - j)).map (slot mmax k m) := by
+    intro n hn
+    rw [List.map_map]
+    apply List.map_congr_left
+    intro j hj
+    have hj' : j < n := List.mem_range.mp hj
+    simp only [Function.comp, slot]
+    have e : k - 1 - j = k - m + (m - 1 - j) := by omega
+    rw [e]
+  rw [this m (Nat.le_refl _)]
+  congr 1
+  -- (range m).map (m-1-·) = downList m   (both are `(range m).reverse`)
+  have hd : ∀ n, downList n = (List.range n).reverse := by
+    intro n
+    induction n with
+    | zero => simp [downList]
+    | succ n ih => rw [downList, ih, List.range_succ, List.reverse_append]; simp
+  rw [hd, List.range_eq_range', List.reverse_range', ← List.range_eq_range']
+  simp
+
+theorem slotsUp_eq (k m mmax : Nat) : slotsUp k m mmax = (List.range m).map (slot mmax k m) := rfl
+
+/-- `L_BFGS.get_descent_direction` is the abstract two-loop recursion on the window of its circular buffer -/
+theorem lbfgsDir_eq_twoLoop (ip : V → V → K) (mmax : Nat) (hmm : 0 < mmax) (st : LState V) (x g : V)
+    (alS alL : Nat → K) :
+    let k := st.k
+    let m := min k mmax
+    let s := if 0 < k then upd st.s ((k - 1) % mmax) (x - st.lastx) else st.s
+    let y := if 0 < k then upd st.y ((k - 1) % mmax) (g - st.lastgrad) else st.y
+    (lbfgsDir ip mmax st x g alS).1 =
+      twoLoopAbs ip (fun j => s (slot mmax k m j)) (fun j => y (slot mmax k m j)) m g alL := by
+  intro k m s y
+  unfold lbfgsDir twoLoopAbs
+  by_cases hm : m = 0
+  · have h0 : min st.k mmax = 0 := hm
+    have : ¬ 0 < min st.k mmax := by rw [h0]; exact Nat.lt_irrefl 0
+    simp only [this, if_false, hm, if_true]
+  · have hpos : 0 < min st.k mmax := Nat.pos_of_ne_zero hm
+    simp only [hpos, if_true, hm, if_false]
+    have hmk : m ≤ k := Nat.min_le_left _ _
+    have hmM : m ≤ mmax := Nat.min_le_right _ _
+    have hinj := slot_inj mmax k m hmM
+    have hf := firstLoop_map ip s y (slot mmax k m) m hinj (downList m) (fun j hj => mem_downList.mp hj)
+      (-g) alS alL (fun _ => False) (by intro j _ h; exact absurd h id)
+    have hslot : (k - 1) % mmax = slot mmax k m (m - 1) := by
+      unfold slot; congr 1; omega
+    change secondLoop ip s y (firstLoop ip s y (slotsDown k m mmax) (-g) alS).2 (slotsUp k m mmax)
+      ((ip (s ((k - 1) % mmax)) (y ((k - 1) % mmax)) / ip (y ((k - 1) % mmax)) (y ((k - 1) % mmax))) •
+        (firstLoop ip s y (slotsDown k m mmax) (-g) alS).1) = _
+    rw [slotsUp_eq, slotsDown_eq k m mmax hmk, hslot, hf.1]
+    apply secondLoop_map
+    intro j hj
+    exact hf.2 j (List.mem_range.mp hj) (Or.inr (mem_downList.mpr (List.mem_range.mp hj)))
+
+/-! ### `VL_BFGS.get_descent_direction` -/
+
+theorem firstLoop_congr (ip : V → V → K) (S Y S' Y' : Nat → V) :
+    ∀ (L : List Nat), (∀ j ∈ L, S j = S' j ∧ Y j = Y' j) → ∀ (p : V) (al : Nat → K),
+      firstLoop ip S Y L p al = firstLoop ip S' Y' L p al := by
+  intro L
+  induction L with
+  | nil => intro _ p al; rfl
+  | cons i r ih =>
+    intro hL p al
+    obtain ⟨h1, h2⟩ := hL i List.mem_cons_self
+    simp only [firstLoop]
+    rw [h1, h2]
+    exact ih (fun j hj => hL j (List.mem_cons_of_mem _ hj)) _ _
+
+theorem secondLoop_congr (ip : V → V → K) (S Y S' Y' : Nat → V) (al : Nat → K) :
+    ∀ (L : List Nat), (∀ j ∈ L, S j = S' j ∧ Y j = Y' j) → ∀ (p : V),
+      secondLoop ip S Y al L p = secondLoop ip S' Y' al L p := by
+  intro L
+  induction L with
+  | nil => intro _ p; rfl
+  | cons i r ih =>
+    intro hL p
+    obtain ⟨h1, h2⟩ := hL i List.mem_cons_self
+    simp only [secondLoop]
+    rw [h1, h2]
+    exact ih (fun j hj => hL j (List.mem_cons_of_mem _ hj)) _
+
+/-- the abstract recursion only looks at the pairs `j < m` -/
+theorem twoLoopAbs_congr (ip : V → V → K) (S Y S' Y' : Nat → V) (m : Nat) (g : V) (al : Nat → K)
+    (h : ∀ j, j < m → S j = S' j ∧ Y j = Y' j) :
+    twoLoopAbs ip S Y m g al = twoLoopAbs ip S' Y' m g al := by
+  unfold twoLoopAbs
+  by_cases hm : m = 0
+  · simp [hm]
+  · simp only [hm, if_false]
+    have hm1 : m - 1 < m := by omega
+    rw [firstLoop_congr ip S Y S' Y' (downList m) (fun j hj => h j (mem_downList.mp hj)),
+        secondLoop_congr ip S Y S' Y' _ (List.range m) (fun j hj => h j (List.mem_range.mp hj)),
+        (h (m - 1) hm1).1, (h (m - 1) hm1).2]
+
+/-- `VL_BFGS.get_descent_direction`, given that the assembled `b_dot_b` is the Gram matrix of the basis, is the
+    abstract two-loop recursion on the window of its circular buffer -/
+theorem vlDir_eq_twoLoop {ip : V → V → K} (hip : IsIP ip) (gg : V → K) (mmax : Nat) (st : VLState K V)
+    (al0 : Nat → K)
+    (hG : IsGram ip (basis mmax st) (histLen mmax st) (bDotB ip gg mmax st).1)
+    (h0 : histLen mmax st = 0 → gg st.lastgrad ≠ 0) :
+    let m := histLen mmax st
+    (vlDir ip gg mmax st al0).1 =
+      twoLoopAbs ip (fun j => st.s (slot mmax st.k m j)) (fun j => st.y (slot mmax st.k m j)) m st.lastgrad al0 := by
+  intro m
+  unfold vlDir
+  simp only
+  have h00 : m = 0 → (bDotB ip gg mmax st).1 0 0 ≠ 0 := by
+    intro hm
+    have : (bDotB ip gg mmax st).1 0 0 = gg st.lastgrad := by
+      have hm' : histLen mmax st = 0 := hm
+      simp [bDotB, hm']
+    rw [this]; exact h0 hm
+  rw [delta_eq_twoLoop hip (basis mmax st) m _ hG h00 al0]
+  have hb : basis mmax st (2 * m) = st.lastgrad := by
+    have h1 : ¬ (2 * m < histLen mmax st) := by show ¬ (2 * m < m); omega
+    have h2 : ¬ (2 * m < 2 * histLen mmax st) := by show ¬ (2 * m < 2 * m); omega
+    simp [basis, h1, h2]
+  rw [hb]
+  apply twoLoopAbs_congr
+  intro j hj
+  constructor
+  · have : j < histLen mmax st := hj
+    simp [basis, this]; rfl
+  · have h1 : ¬ (m + j < histLen mmax st) := by show ¬ (m + j < m); omega
+    have h2 : m + j < 2 * histLen mmax st := by show m + j < 2 * m; omega
+    have h3 : m + j - histLen mmax st = j := by show m + j - m = j; omega
+    simp [basis, h1, h2, h3]; rfl
+
+/-- **one call**: the same history in both circular buffers ⇒ the same direction -/
+theorem vl_eq_lbfgs_call {ip : V → V → K} (hip : IsIP ip) (gg : V → K) (mmax : Nat) (hmm : 0 < mmax)
+    (stL : LState V) (stV : VLState K V) (x g : V) (alL alV : Nat → K)
+    (hk : stV.k = stL.k)
+    (hs : stV.s = if 0 < stL.k then upd stL.s ((stL.k - 1) % mmax) (x - stL.lastx) else stL.s)
+    (hy : stV.y = if 0 < stL.k then upd stL.y ((stL.k - 1) % mmax) (g - stL.lastgrad) else stL.y)
+    (hg : stV.lastgrad = g)
+    (hG : IsGram ip (basis mmax stV) (histLen mmax stV) (bDotB ip gg mmax stV).1)
+    (h0 : min stL.k mmax = 0 → gg g ≠ 0) :
+    (vlDir ip gg mmax stV alV).1 = (lbfgsDir ip mmax stL x g alL).1 := by
+  have hm : histLen mmax stV = min stL.k mmax := by unfold histLen; rw [hk]
+  rw [vlDir_eq_twoLoop hip gg mmax stV alV hG (by rw [hm, hg]; exact h0),
+      lbfgsDir_eq_twoLoop ip mmax hmm stL x g alL alV, hm, hk, hs, hy, hg]
+
 end NiftyVerif.Lbfgs
